@@ -48,6 +48,9 @@ def concrete_failures(desc, algo, policy, costs):
 
 
 def replay(data):
+    if "rel" in data:
+        from checks import c10
+        return c10.replay(data)
     if "flags" in data:
         from checks import sr_common as SR
         return SR.replay(data)
@@ -228,6 +231,13 @@ def main(argv=None):
     res, skipped = R.run_sharded(SR.generic_worker, [{"prop": PROP, "desc": d, "runs": SR.history_runs(["thl", "exh"], flags),
                                                       "max_paths": mp, "budget_s": bs} for d in hist], budget)
     rep.add_results("call history: the same solver called earlier in the same interpreter, then explored with four symbolic costs", res, skipped, exhaustive=False)
+    # beyond the oracle's reach: both solvers claim the minimum, so their minima must be equal on every path (6-7 object leaves, deep species trees)
+    from checks import c10
+    nx = 16 if tier == "quick" else 200
+    cross = [D.random_deep_input(rng2, rng2.randint(6, 6 if tier == "quick" else 7), rng2.randint(5, 7)) for _ in range(nx)]
+    res, skipped = R.run_sharded(c10.worker, [{"desc": d, "sym": ["dup", "hgt"], "fixed": {"spe": 0, "floss": 1}, "relations": [("thl", "exh", "eq")],
+                                               "max_paths": mp, "budget_s": bs} for d in cross], budget)
+    rep.add_results("thl and exh agree on 6-7-leaf inputs (no oracle; dup, hgt symbolic)", res, skipped, exhaustive=False)
     rep.add_results("F-COHERENCE witness (outside the coherent region; concrete replay only)", [SR.coherence_witness_result(PROP)], 0, exhaustive=None)
     import superrec2.compute.reconciliation as m1, superrec2.compute.exhaustive as m2
     import superrec2.utils.dynamic_programming as m3, superrec2.model.reconciliation as m4
@@ -238,6 +248,7 @@ def main(argv=None):
         m4.ReconciliationOutput.node_event, m4.ReconciliationOutput._cost_rec)
     bounds["deep"] = (f"{nd} seeded inputs with 3-{5 if tier == 'quick' else 6} object leaves on species trees with 5-{6 if tier == 'quick' else 7} leaves, 70% caterpillars "
                       "(dup, hgt symbolic; spe = 0, floss = 1; thl + exh, any)")
+    bounds["cross-check"] = f"{nx} seeded 6-7-leaf inputs on deep species trees: min(thl) = min(exh) proven per path (dup, hgt symbolic)"
     bounds["call history"] = f"{len(hist)} seeded 3-4-leaf inputs explored after earlier concrete calls of the same solver in a fresh interpreter"
     rep.bounds = dict(bounds, costs="spe, dup, hgt, floss: all non-negative integers with spe <= dup + 2*floss (no upper bound); "
                       "second run with hgt = infinity.inf", policies="any, all", per_input_path_cap=mp)
